@@ -1,9 +1,13 @@
 pub mod anchor;
 pub mod c01;
+pub mod c02;
+pub mod c03;
+pub mod c04;
+pub mod c13;
 pub mod common;
 
 use crate::runner::CheckDef;
 
 pub fn all() -> Vec<CheckDef> {
-    vec![c01::def()]
+    vec![c01::def(), c02::def(), c03::def(), c04::def(), c13::def()]
 }
